@@ -9,16 +9,55 @@ MP_ = OBJ('_MultiPassWorkflowCoordinator')
 ROW = OBJ('AlignmentResultRow')
 OMAP = OBJ('OpticalMap')
 
-firstPass = FunctionSpec(
-    file='src/workflow_coordinator.py', qualname='_WorkflowCoordinator.execute', params=dict(self=OBJ('_WorkflowCoordinator', '_MultiPassWorkflowCoordinator'),
-                                                                                            referenceMaps=LIST(OMAP), queryMaps=LIST(OMAP)),
-    returns=LIST(ROW), trusted=True, serves=('C05', 'C08'),
-    note="ASSUMED: the per-query alignment (p_imap over __align; numerics); only the result type is used here")
+# _WorkflowCoordinator.execute: contract in specs/workflow.py (verified there; used here through its contract)
 
+def _second_ensures(C, res):
+    """the second pass runs on the SAME reference list as the first pass, on the unaligned fragments of the first-pass rows (ghosts of the call site)"""
+    cl = []
+    if C.has('F') and C.proving:
+        cl = [('second_pass_searches_the_same_reference_list_as_the_first_pass', same_list(C.F.g2refs, C.referenceMaps)),
+              ('second_pass_queries_are_the_unaligned_fragments_of_the_first_pass_rows', same_list(C.F.g2queries, C.F.unalignedFragments)),
+              ('result_has_one_entry_per_second_pass_row', res.len == C.F.g2rows.len)]
+    return cl
+
+
+def _second_log(L):
+    L.set('g2refs', L._st.lst(L.callargs[0]))
+    L.set('g2queries', L._st.lst(L.callargs[1]))
+    L.set('g2rows', L._st.lst(_raw(L.result)))
+
+
+_eo = lambda C: C._e.fresh_list(OMAP, 'g2', n=z3.IntVal(0))
 secondPass = FunctionSpec(
     file=F, qualname='_MultiPassWorkflowCoordinator.getSecondPassAlignmentRows',
     params=dict(self=MP_, alignmentResultRows=LIST(ROW), queryMaps=LIST(OMAP), referenceMaps=LIST(OMAP)), returns=LIST(ROW), trusted=True, serves=('C08',),
-    note="ASSUMED (mutates the rows through setAlignedRest, outside the subset): second-pass rows; bounded part checks AlignedRest True")
+    note="ASSUMED at the call site in execute (result type only): the preconditions of the verified variant #checked speak about the first-pass rows, which "
+         "come from the numerical seeding and cannot be discharged there; bounded part checks AlignedRest True")
+
+
+def _rows_fit_the_queries(C):
+    """every first-pass row names a query of the list, and on the forward strand its query start / end are label coordinates of that query
+    (what getUnalignedFragments needs; established by AlignmentResultRow.create over trimmed queries - bounded, C02)"""
+    R, Q = C.alignmentResultRows, C.queryMaps
+    r, k, j = z3.Int('r2'), z3.Int('k2'), z3.Int('j2')
+    inq = lambda row, x: forall(k, z3.Implies(z3.And(rng(0, k, Q.len), Q[k].moleculeId == row.queryId),
+                                              z3.Exists([j], z3.And(rng(0, j, Q[k].positions.len), Q[k].positions[j] == x))), [Q.raw(k).t])
+    return forall(r, z3.Implies(rng(0, r, R.len), z3.And(
+        z3.Exists([k], z3.And(rng(0, k, Q.len), Q[k].moleculeId == R[r].queryId)),
+        z3.Implies(z3.Not(R[r].reverseStrand), z3.And(inq(R[r], R[r].queryStartPosition), inq(R[r], R[r].queryEndPosition))))), [R.raw(r).t])
+
+
+secondPassChecked = FunctionSpec(
+    file=F, qualname='_MultiPassWorkflowCoordinator.getSecondPassAlignmentRows', variant='checked',
+    params=dict(self=MP_, alignmentResultRows=LIST(ROW), queryMaps=LIST(OMAP), referenceMaps=LIST(OMAP)), returns=LIST(ROW),
+    requires=lambda C: [('first_pass_rows_fit_the_queries', _rows_fit_the_queries(C)),
+                        ('peak_count_nonnegative', C.self.peaksSelector.count >= 0),
+                        ('cpus_option_absent_or_positive', z3.Or(C.self.args.numberOfCpus.none, C.self.args.numberOfCpus.val >= 1))],
+    ensures=_second_ensures, serves=('C08', 'C10', 'C05'),
+    ghost={'g2refs': _eo, 'g2queries': _eo, 'g2rows': lambda C: C._e.fresh_list(ROW, 'g2rows', n=z3.IntVal(0))},
+    ghost_at={'call:execute#0': _second_log}, inline={'AlignmentResultRow.setAlignedRest'},
+    note="the second pass: every first-pass row's unaligned fragments (getUnalignedFragments, under contract) are aligned by the same per-query procedure "
+         "against the SAME reference list the first pass used (the argument itself, not a selection of it); one result entry per second-pass row")
 
 save = FunctionSpec(
     file=F, qualname='_MultiPassWorkflowCoordinator.saveAdditionalOutput',
@@ -44,7 +83,9 @@ def _mode(C, name):
 
 
 def _requires(C):
-    return [('known_multi_pass_mode', z3.Or(*[_mode(C, m) for m in ('best', 'separate', 'joined', 'all')]))]
+    return [('known_multi_pass_mode', z3.Or(*[_mode(C, m) for m in ('best', 'separate', 'joined', 'all')])),
+            ('peak_count_nonnegative', C.self.peaksSelector.count >= 0),
+            ('cpus_option_absent_or_positive', z3.Or(C.self.args.numberOfCpus.none, C.self.args.numberOfCpus.val >= 1))]
 
 
 def _raw(x):
@@ -126,4 +167,4 @@ execute = FunctionSpec(
          "same symbolic values in every mode, so main(all)=main(joined), _1(all)=main(separate), _2(all)=_1(separate) follow by congruence",
 )
 
-SPECS = [firstPass, secondPass, save, execute]
+SPECS = [secondPass, secondPassChecked, save, execute]
